@@ -210,13 +210,9 @@ def validated_oracle(run):
     only_blanks = all(char.blank for char in run["chars"])
     logically_empty = run["kind"] == AText.EMPTY or (fixed and only_blanks)
     length = len(run["chars"])
-    if fixed and run["kind"] == AText.BLANKS and not only_blanks:
-        # blanks and other white space: not "a cell consisting only of blanks", so the character guard applies; what
-        # such a cell is when all its characters are allowed is not stated (str.strip() makes it empty) - not compared
-        if any(not char.allowed for char in run["chars"]):
-            problem = verdict_is("FieldValueError")
-            return ("cell of blanks and other white space with a disallowed character: " + problem) if problem else "conforms"
-        return "conforms"
+    # blanks and other white space (a tab between blanks): not "a cell consisting only of blanks", so it is a non-empty
+    # cell like any other - the guards apply and, if they pass, the value hook decides (str.strip() without argument would
+    # make it empty)
     if fixed and length > 0:
         over_width = interp.order.sign(("c", length), ("s", run["width"].key())) > 0
     else:
@@ -263,10 +259,16 @@ def validated_oracle(run):
         return "value hook called %d times for a non-empty, allowed, in-length cell" % len(hook_calls)
     argument = hook_calls[0][1]
     if fixed:
-        if not (isinstance(argument, AText) and argument.origin is run["value"] and argument.kind == AText.TEXT):
+        # what is left when the blanks (and only the blanks) around the value are removed
+        expected_chars = list(run["chars"])
+        while expected_chars and expected_chars[0].blank:
+            expected_chars.pop(0)
+        while expected_chars and expected_chars[-1].blank:
+            expected_chars.pop()
+        if not (isinstance(argument, AText) and argument.origin is run["value"] and argument.kind != AText.EMPTY):
             return "fixed format: value hook did not receive the blank-stripped cell"
-        if argument.chars is not None and any(char.blank for char in argument.chars):
-            return "fixed format: value hook received a cell with surrounding blanks"
+        if argument.chars is not None and list(argument.chars) != expected_chars:
+            return "fixed format: value hook received %r instead of the cell without its surrounding blanks %r" % (argument.chars, expected_chars)
     elif argument is not run["value"]:
         return "value hook did not receive the cell unchanged"
     problem = verdict_is("native" if hook_calls[0][-1] == "returns" else "FieldValueError")
